@@ -324,7 +324,7 @@ void NLWriter2<Params>::WriteNLHeader() {
   for (int i = 0; i < Hdr().num_ampl_options; ++i)
     nm.Printf(" %ld", Hdr().ampl_options[i]);
   if (Hdr().ampl_options[VBTOL_OPTION_INDEX] == USE_VBTOL_FLAG)
-    nm.Printf(" %.g", Hdr().ampl_vbtol);
+    nm.Printf(" %.17g", Hdr().ampl_vbtol);
   nm.Printf(gl_1a, Hdr().prob_name);
 
   /// Num variables, constraints, obj, ...
